@@ -5,6 +5,11 @@ from . import props, core
 ALL = ["C%02d" % i for i in range(1, 21)]
 
 
+def pending_ids():
+    f = os.path.join(core.VERIF, "vlib", "pending.txt")
+    return set(open(f).read().split()) if os.path.exists(f) else set()
+
+
 def main():
     try:
         hooks = subprocess.run(["git", "-C", "/repo", "log", "--format=%H %s", "--grep=^hook:"], capture_output=True, text=True).stdout.split("\n")
@@ -21,14 +26,16 @@ def main():
             "source_commits": hook_commits,
             "add_only": True,
         },
-        "engines": [{"name": "check", "path": "/verif/check", "serves_properties": sorted(props.PROPS), 
+        "engines": [{"name": "check", "path": "/verif/check", "serves_properties": sorted(set(props.PROPS) - pending_ids()), 
                      "kind_free_text": "runtime monitoring: seeded workload drivers compiled against /repo/include with ASan+UBSan / TSan, in-process reference-model and law monitors, recorded logs judged by Python reference models"}],
         "checks": [],
         "not_applicable": [],
         "notes": "All checks: ./check <id> --tier quick|thorough, honouring VERIF_SEED. Exit 0 held / 1 violated (VIOLATION line) / 2 inconclusive. Known findings: known_findings.json.",
     }
+    # monitors present in the tree but not yet validated on the unchanged tree (seeds 1-3): not claimed
+    pending = set(x.strip() for x in open(os.path.join(core.VERIF, "vlib", "pending.txt")).read().split()) if os.path.exists(os.path.join(core.VERIF, "vlib", "pending.txt")) else set()
     for pid in ALL:
-        if pid in props.PROPS:
+        if pid in props.PROPS and pid not in pending:
             p = props.PROPS[pid]
             m["checks"].append({
                 "property_id": pid,
